@@ -9,7 +9,8 @@ changes.
   *sown* crop stands on the field (SAAT > 0, SAAT ≤ day ≤ ERNTE2) — the N fixation of the day;
 * later sub-steps: PESUM, AUFNASUM and the uptake array PE are untouched;
 * a day of any number of sub-steps credits once;
-* the mineral N of every layer of the profile is ≥ 0 after the call (`C07_source_nmove_mineral_n_nonneg`).
+* the mineral N of every layer of the profile is ≥ 0 after the call (`C07_source_nmove_mineral_n_nonneg`);
+* in the first sub-step the uptake of every layer is cut to [0, what the layer holds above 0.5 kg N/ha] (`C07_source_nmove_uptake_bounds`).
 
 And about the translation of `mineral` (same file of the source, same translator):
 
@@ -22,6 +23,7 @@ And about the translation of `mineral` (same file of the source, same translator
 -/
 import HermesProofs.ImpNmoveCredit
 import HermesProofs.ImpNmoveNonneg
+import HermesProofs.ImpNmoveUptake
 import HermesProofs.ImpMineralPools
 import HermesProofs.ImpMineralDissolved
 import HermesProofs.ImpMineralNonneg
@@ -136,6 +138,12 @@ source terms, stable or not — and any number of layers inside the array, every
 theorem C07_source_nmove_mineral_n_nonneg (s : St ℚ) (hN : s.g_N.toNat ≤ s.g_C1.length) (j : Int) (h0 : 0 ≤ j) (h1 : j < s.g_N) :
     0 ≤ rd (run m s).g_C1 j :=
   run_C1_nonneg m s hN j h0 h1
+
+/-- **The uptake credited in the first sub-step is never negative and never more than the layer holds above 0.5 kg N/ha** (source
+level): whatever the crop routine handed over, for every state and any number of layers inside the array. -/
+theorem C07_source_nmove_uptake_bounds (s : St ℚ) (hs : s.p_subd = 1) (hN : s.g_N.toNat ≤ s.g_PE.length) (j : Int) (h0 : 0 ≤ j)
+    (h1 : j < s.g_N) : 0 ≤ rd (run m s).g_PE j ∧ (rd (run m s).g_PE j ≤ rd s.g_C1 j - 0.5 ∨ rd (run m s).g_PE j = 0) :=
+  run_uptake_bounds m s hs hN j h0 h1
 
 /-- premises are satisfiable and the statement is not trivial: a legume harvested, automatic sowing pending (SAAT = 0),
 stale fixation 4.44 — nothing is credited; with the crop sown on day 900 it is. -/
